@@ -120,7 +120,7 @@ func (g *tokGen) GenerateTokens(n int, taken []uint32) ring.Tokens {
 	return out
 }
 func (g *tokGen) CanJoin(map[string]ring.InstanceDesc) error { return nil }
-func (g *tokGen) CanJoinEnabled() bool                         { return false }
+func (g *tokGen) CanJoinEnabled() bool                       { return false }
 
 // ---------------------------------------------------------------- recording / fault-injecting kv.Client
 
@@ -132,8 +132,10 @@ type recorder struct {
 	cas   []string
 }
 
-func (r *recorder) List(ctx context.Context, p string) ([]string, error) { return r.w.inner.List(ctx, p) }
-func (r *recorder) Delete(ctx context.Context, k string) error            { return r.w.inner.Delete(ctx, k) }
+func (r *recorder) List(ctx context.Context, p string) ([]string, error) {
+	return r.w.inner.List(ctx, p)
+}
+func (r *recorder) Delete(ctx context.Context, k string) error { return r.w.inner.Delete(ctx, k) }
 func (r *recorder) WatchKey(ctx context.Context, k string, f func(interface{}) bool) {
 	r.w.inner.WatchKey(ctx, k, f)
 }
@@ -1010,9 +1012,15 @@ func runC08(e *env) {
 		rounds = 3
 	}
 	glue := glueStart(rounds) // real-time glue scenarios run concurrently with the case generation
+	loops := loopStart(e.seed, 150*e.scale)
 	c08Parallel(e, n, "c08", c08Case)
 	for _, l := range glue() {
 		e.emit(strings.Split(l, "\t")...)
+	}
+	for _, l := range loops() {
+		if l != "" {
+			e.emit(strings.Split(l, "\t")...)
+		}
 	}
 }
 
